@@ -244,10 +244,11 @@ pub fn run(tier: Tier, seed: u64) -> i32 {
             "oracle: the scripted driver's own record of what it returned for each signal in the call made for the row; X/Z truth table written from the property".into(),
             "the expected value itself is taken from the row (its reduction to the signal width is C07's)".into(),
         ],
-        required_witnesses: vec!["unsupplied_output_is_X", "expected_X", "expected_Z_output_Z", "expected_Z_output_other", "number_vs_number", "number_vs_Z_or_X", "c_expansion", "one_loaded_test_used_twice_with_different_drivers"],
+        required_witnesses: vec!["unsupplied_output_is_X", "expected_X", "expected_Z_output_Z", "expected_Z_output_other", "number_vs_number", "number_vs_Z_or_X", "c_expansion", "one_loaded_test_used_twice_with_different_drivers", "iterator_advanced_with_nth"],
         exhaustive_note: "every reachable state for every case; thorough uses the full 8-value menu for three-signal layouts".into(),
         e1: true,
     };
     st.merge(crate::props::c13::reuse_part(&deadline));
+    st.merge(crate::props::c13::api_use_part(&deadline));
     finish(meta, st, started)
 }
